@@ -97,3 +97,6 @@ package xrespondent
 //@   ghost was = s.closed at call:Lock#1
 //@   ensures was ==> result == protocol.ErrClosed
 //@   ensures !was ==> isnil(result) && s.closed && closed(s.closeQ)
+//@
+//@ func (*socket).AddPipe
+//@   before call:SetPrivate#1 assert cap(p.sendQ) == s.sendQLen
